@@ -8,6 +8,7 @@ import S4V.Model.Lines
 import S4V.Model.Coord
 import S4V.Model.Time
 import S4V.Model.Syslines
+import S4V.Model.Gate
 
 open S4V.Model S4V.Model.Wire
 
@@ -141,6 +142,13 @@ def stepSysl : List String → String
     | none => "bad-op"
   | _ => "bad-op"
 
+def stepGate : List String → String
+  | [bs, h] =>
+    match bs.toNat?, unhex h with
+    | some bs, some d => (Gate.gate Time.parseHead bs d).toString
+    | _, _ => "bad-op"
+  | _ => "bad-op"
+
 def step (line : String) : String :=
   match words line with
   | "path" :: rest => stepPath rest
@@ -148,6 +156,7 @@ def step (line : String) : String :=
   | "blk" :: rest => stepBlk rest
   | "coord" :: rest => stepCoord rest
   | "sysl" :: rest => stepSysl rest
+  | "gate" :: rest => stepGate rest
   | _ => "bad-op"
 
 partial def loop (h : IO.FS.Stream) (out : IO.FS.Stream) : IO Unit := do
